@@ -1,67 +1,34 @@
 /-
 C12, ClipperOffset and RectClip64 clauses.
 
-`OffsetFrameLocal` — "the parameters in force while a path is offset depend only on delta, on that path and on its own
-group's parameters, whatever was added before and in whatever order" — is **false** for the code as it stands:
-two witnesses (`offset_frame_local_false_endtype`, `offset_frame_local_false_delta`), which are the inputs the harness
-reports under kf.offset-endtype-leak / kf.offset-delta-abs-leak.  `offset_frame_local_partial` proves it under the two
-hypotheses that exclude exactly these triggers.
+`offset_frame_local` — the parameters in force while a path is offset depend only on delta, on that path and on its own
+group's parameters, whatever was added before and in whatever order — holds in full for `Model/OffsetState.lean`, which
+follows the code after the `fix:` commits bd5ab48 (end_type_ restored per path), 058ce9d (delta_ no longer overwritten
+by a point-less Polygon group) and 85fe8ed (empty paths skipped).  Before them it was false; the two former
+counterexamples are kept below as regression examples and as fixed corpus inputs of harness/C12.cpp.
 -/
 import ClipperVerif.Model.OffsetState
 import ClipperVerif.Model.RectClipFrame
 namespace Clipper.Props.C12
 open Clipper Clipper.Model.OffsetState
 
-/-- the full-strength statement (for every prior state of the object, every delta, every list of groups) -/
+/-- the full-strength statement (for every prior state of the object, every significant delta, every list of groups) -/
 def OffsetFrameLocal : Prop :=
   ∀ (st : OState) (delta : Int) (gs : List Group), delta ≠ 0 →
     (executeFrames st delta gs).2 = gs.map (fun g => g.pathsIn.map (refFrame delta g))
 
-/-! ### the two counterexamples -/
+/-! ### the former counterexamples conform -/
 
 /-- (a) {(0,0),(100,0)}, {(1000,1000),(1100,1000),(1100,1100)}, Miter, Joined, delta 10 -/
 def witnessA : List Group :=
   [mkGroup [[⟨0, 0⟩, ⟨100, 0⟩], [⟨1000, 1000⟩, ⟨1100, 1000⟩, ⟨1100, 1100⟩]] .miter .joined]
-
 /-- (b) AddPaths({{}}, Miter, Polygon); AddPaths({square}, Miter, Polygon); delta −10 -/
 def witnessB : List Group :=
   [mkGroup [[]] .miter .polygon, mkGroup [[⟨0, 0⟩, ⟨100, 0⟩, ⟨100, 100⟩, ⟨0, 100⟩]] .miter .polygon]
-
-/-- the 3-point path of a Joined group is offset as an open path with square caps after a 2-point path … -/
-theorem witnessA_frames :
-    (executeFrames {} 10 witnessA).2 =
-      [[⟨.openPath, 10, .miter, .square, none⟩, ⟨.openPath, 10, .miter, .square, none⟩]] := by decide
-/-- … although on its own parameters it is offset as Joined -/
-theorem witnessA_ref :
-    witnessA.map (fun g => g.pathsIn.map (refFrame 10 g)) =
-      [[⟨.openPath, 10, .miter, .square, none⟩, ⟨.joined, 10, .miter, .joined, none⟩]] := by decide
-
-/-- the square is offset with +10 after the point-less group … -/
-theorem witnessB_frames :
-    (executeFrames {} (-10) witnessB).2 = [[⟨.polygon, 10, .miter, .polygon, none⟩], [⟨.polygon, 10, .miter, .polygon, none⟩]] := by decide
-/-- … although its own parameters say −10 -/
-theorem witnessB_ref :
-    witnessB.map (fun g => g.pathsIn.map (refFrame (-10) g)) =
-      [[⟨.polygon, 10, .miter, .polygon, none⟩], [⟨.polygon, -10, .miter, .polygon, none⟩]] := by decide
-
-theorem offset_frame_local_false_endtype : ¬ OffsetFrameLocal := by
-  intro h
-  have := h {} 10 witnessA (by decide)
-  rw [witnessA_frames, witnessA_ref] at this
-  exact absurd this (by decide)
-
-theorem offset_frame_local_false_delta : ¬ OffsetFrameLocal := by
-  intro h
-  have := h {} (-10) witnessB (by decide)
-  rw [witnessB_frames, witnessB_ref] at this
-  exact absurd this (by decide)
-
-/-! ### the part that holds -/
-
-/-- in a Joined group no 2-vertex path is followed by a path that has neither 1 nor 2 vertices -/
-def joinedOk : Paths → Bool
-  | [] => true
-  | p :: ps => if p.length = 2 then ps.all (fun q => decide (q.length = 1) || decide (q.length = 2)) else joinedOk ps
+example : (executeFrames {} 10 witnessA).2 =
+    [[⟨.openPath, 10, .miter, .square, none⟩, ⟨.joined, 10, .miter, .joined, none⟩]] := by decide
+example : (executeFrames {} (-10) witnessB).2 =
+    [[⟨.skipped, 10, .miter, .polygon, none⟩], [⟨.polygon, -10, .miter, .polygon, none⟩]] := by decide
 
 /-- the members as `DoGroupOffset`'s header leaves them for group `g` -/
 structure Hdr (delta : Int) (g : Group) (st : OState) : Prop where
@@ -69,31 +36,44 @@ structure Hdr (delta : Int) (g : Group) (st : OState) : Prop where
   jt : st.joinType = g.joinType
   steps : (g.joinType = .round ∨ g.endType = .round) → st.stepsFor = some (refGroupDelta delta g)
 
+/-- frame of an empty path -/
+def emptyFrame (g : Group) (st : OState) : Frame :=
+  { kind := .skipped, groupDelta := st.groupDelta, joinType := g.joinType, endType := .polygon, steps := none }
+
 /-- frame of a single-point path -/
 def pointFrame (g : Group) (st : OState) : Frame :=
   { kind := (if st.groupDelta < 1 then .skipped else .point), groupDelta := st.groupDelta,
     joinType := g.joinType, endType := .polygon,
     steps := (if g.joinType = .round then st.stepsFor else none) }
 
-/-- the members after the `pathLen == 2 && Joined` statement -/
+/-- the members after `end_type_ = group.end_type; if (pathLen == 2 && Joined) end_type_ = …` -/
 def pathState (g : Group) (st : OState) (p : Path) : OState :=
-  if p.length = 2 ∧ g.endType = .joined then
-    { st with endType := (if g.joinType = .round then .round else .square) } else st
+  { st with endType := (if p.length = 2 ∧ g.endType = .joined then
+      (if g.joinType = .round then .round else .square) else g.endType) }
 
-/-- frame of a path with 0 or ≥ 2 vertices, from the members in force -/
+/-- frame of a path with ≥ 2 vertices, from the members in force -/
 def pathFrame (st1 : OState) : Frame :=
   { kind := (if st1.endType = .polygon then .polygon else if st1.endType = .joined then .joined else .openPath),
     groupDelta := st1.groupDelta, joinType := st1.joinType, endType := st1.endType,
     steps := (if usesRound st1.joinType st1.endType then st1.stepsFor else none) }
 
+theorem pathLoop_empty (g : Group) (st : OState) (p : Path) (ps : Paths) (hp : p.length = 0) :
+    pathLoop g st (p :: ps) = ((pathLoop g st ps).1, emptyFrame g st :: (pathLoop g st ps).2) := by
+  rw [pathLoop]; simp only [hp, if_true]; rfl
+
 theorem pathLoop_point (g : Group) (st : OState) (p : Path) (ps : Paths) (hp : p.length = 1) :
     pathLoop g st (p :: ps) = ((pathLoop g st ps).1, pointFrame g st :: (pathLoop g st ps).2) := by
   rw [pathLoop]; simp only [hp, if_true]; rfl
 
-theorem pathLoop_path (g : Group) (st : OState) (p : Path) (ps : Paths) (hp : p.length ≠ 1) :
+theorem pathLoop_path (g : Group) (st : OState) (p : Path) (ps : Paths) (h0 : p.length ≠ 0) (hp : p.length ≠ 1) :
     pathLoop g st (p :: ps) =
       ((pathLoop g (pathState g st p) ps).1, pathFrame (pathState g st p) :: (pathLoop g (pathState g st p) ps).2) := by
-  rw [pathLoop]; simp only [hp, if_false]; rfl
+  rw [pathLoop]; simp only [h0, hp, if_false]; rfl
+
+private theorem frame_empty (delta : Int) (g : Group) (st : OState) (h : Hdr delta g st) (p : Path) (hp : p.length = 0) :
+    emptyFrame g st = refFrame delta g p := by
+  unfold refFrame emptyFrame
+  simp only [hp, if_true, h.gd]
 
 private theorem frame_point (delta : Int) (g : Group) (st : OState) (h : Hdr delta g st) (p : Path) (hp : p.length = 1) :
     pointFrame g st = refFrame delta g p := by
@@ -103,10 +83,11 @@ private theorem frame_point (delta : Int) (g : Group) (st : OState) (h : Hdr del
   · simp [hj, h.steps (Or.inl hj)]
   · simp [hj]
 
-private theorem frame_path (delta : Int) (g : Group) (st1 : OState) (h : Hdr delta g st1) (p : Path) (hp : p.length ≠ 1)
-    (het : st1.endType = refEndType g p.length) : pathFrame st1 = refFrame delta g p := by
+private theorem frame_path (delta : Int) (g : Group) (st1 : OState) (h : Hdr delta g st1) (p : Path)
+    (h0 : p.length ≠ 0) (hp : p.length ≠ 1) (het : st1.endType = refEndType g p.length) :
+    pathFrame st1 = refFrame delta g p := by
   unfold refFrame pathFrame
-  simp only [hp, if_false, h.gd, h.jt, het]
+  simp only [h0, hp, if_false, h.gd, h.jt, het]
   by_cases hu : usesRound g.joinType (refEndType g p.length) = true
   · have hr : g.joinType = .round ∨ g.endType = .round := by
       unfold usesRound at hu
@@ -122,95 +103,39 @@ private theorem frame_path (delta : Int) (g : Group) (st1 : OState) (h : Hdr del
     simp [hu, h.steps hr]
   · simp [hu]
 
-private theorem hdr_pathState {delta : Int} {g : Group} {st : OState} (h : Hdr delta g st) (p : Path) :
-    Hdr delta g (pathState g st p) := by
-  unfold pathState; split
-  · exact ⟨h.gd, h.jt, h.steps⟩
-  · exact h
-
-private theorem delta_pathState (g : Group) (st : OState) (p : Path) : (pathState g st p).delta = st.delta := by
-  unfold pathState; split <;> rfl
-
-/-- the leaked state: every remaining path has 1 or 2 vertices, so the overwritten `end_type_` is the right one anyway -/
-private theorem pathLoop_leaked (delta : Int) (g : Group) (hj : g.endType = .joined) :
-    ∀ (ps : Paths) (st : OState), Hdr delta g st → st.endType = (if g.joinType = .round then .round else .square) →
-      ps.all (fun q => decide (q.length = 1) || decide (q.length = 2)) = true →
-      (pathLoop g st ps).2 = ps.map (refFrame delta g) ∧ (pathLoop g st ps).1.delta = st.delta
-  | [], st, _, _, _ => by simp [pathLoop]
-  | p :: ps, st, h, he, hall => by
-    simp only [List.all_cons, Bool.and_eq_true, Bool.or_eq_true, decide_eq_true_eq] at hall
-    obtain ⟨hp, hrest⟩ := hall
-    rcases hp with hp | hp
-    · have ih := pathLoop_leaked delta g hj ps st h he hrest
-      rw [pathLoop_point g st p ps hp, List.map_cons]
-      exact ⟨by rw [ih.1, frame_point delta g st h p hp], ih.2⟩
-    · have hne : p.length ≠ 1 := by omega
-      have hst1 : (pathState g st p).endType = (if g.joinType = .round then .round else .square) := by
-        simp [pathState, hp, hj]
-      have he1 : (pathState g st p).endType = refEndType g p.length := by
-        rw [hst1]; simp [refEndType, hp, hj]
-      have ih := pathLoop_leaked delta g hj ps (pathState g st p) (hdr_pathState h p) hst1 hrest
-      rw [pathLoop_path g st p ps hne, List.map_cons]
-      exact ⟨by rw [ih.1, frame_path delta g _ (hdr_pathState h p) p hne he1], by rw [ih.2, delta_pathState]⟩
-
 private theorem pathLoop_ok (delta : Int) (g : Group) :
-    ∀ (ps : Paths) (st : OState), Hdr delta g st → st.endType = g.endType → (g.endType = .joined → joinedOk ps = true) →
+    ∀ (ps : Paths) (st : OState), Hdr delta g st →
       (pathLoop g st ps).2 = ps.map (refFrame delta g) ∧ (pathLoop g st ps).1.delta = st.delta
-  | [], st, _, _, _ => by simp [pathLoop]
-  | p :: ps, st, h, he, hok => by
-    by_cases hp : p.length = 1
-    · have hok' : g.endType = .joined → joinedOk ps = true := by
-        intro hj; have := hok hj; simpa [joinedOk, hp] using this
-      have ih := pathLoop_ok delta g ps st h he hok'
-      rw [pathLoop_point g st p ps hp, List.map_cons]
-      exact ⟨by rw [ih.1, frame_point delta g st h p hp], ih.2⟩
-    · rw [pathLoop_path g st p ps hp, List.map_cons]
-      by_cases hc : p.length = 2 ∧ g.endType = .joined
-      · -- the overwrite happens: the rest of the group must be short paths
-        obtain ⟨hp2, hj⟩ := hc
-        have hst1 : (pathState g st p).endType = (if g.joinType = .round then .round else .square) := by
-          simp [pathState, hp2, hj]
-        have he1 : (pathState g st p).endType = refEndType g p.length := by
-          rw [hst1]; simp [refEndType, hp2, hj]
-        have hrest : ps.all (fun q => decide (q.length = 1) || decide (q.length = 2)) = true := by
-          have := hok hj; simpa [joinedOk, hp2] using this
-        have ih := pathLoop_leaked delta g hj ps (pathState g st p) (hdr_pathState h p) hst1 hrest
-        exact ⟨by rw [ih.1, frame_path delta g _ (hdr_pathState h p) p hp he1], by rw [ih.2, delta_pathState]⟩
-      · have hps : pathState g st p = st := by simp [pathState, hc]
-        have he1 : st.endType = refEndType g p.length := by simp [refEndType, hc, he]
-        have hok' : g.endType = .joined → joinedOk ps = true := by
-          intro hj
-          have hp2 : p.length ≠ 2 := fun e => hc ⟨e, hj⟩
-          have := hok hj; simpa [joinedOk, hp2] using this
-        have ih := pathLoop_ok delta g ps st h he hok'
-        rw [hps]
-        exact ⟨by rw [ih.1, frame_path delta g st h p hp he1], ih.2⟩
+  | [], st, _ => by simp [pathLoop]
+  | p :: ps, st, h => by
+    by_cases h0 : p.length = 0
+    · have ih := pathLoop_ok delta g ps st h
+      rw [pathLoop_empty g st p ps h0, List.map_cons]
+      exact ⟨by rw [ih.1, frame_empty delta g st h p h0], ih.2⟩
+    · by_cases hp : p.length = 1
+      · have ih := pathLoop_ok delta g ps st h
+        rw [pathLoop_point g st p ps hp, List.map_cons]
+        exact ⟨by rw [ih.1, frame_point delta g st h p hp], ih.2⟩
+      · have h1 : Hdr delta g (pathState g st p) := ⟨h.gd, h.jt, h.steps⟩
+        have he1 : (pathState g st p).endType = refEndType g p.length := rfl
+        have ih := pathLoop_ok delta g ps (pathState g st p) h1
+        rw [pathLoop_path g st p ps h0 hp, List.map_cons]
+        exact ⟨by rw [ih.1, frame_path delta g _ h1 p h0 hp he1], ih.2⟩
 
-private theorem header_ok (delta : Int) (g : Group) (st : OState) (hd : st.delta = delta)
-    (hB : 0 < delta ∨ (g.endType = .polygon → g.lowest.isSome = true)) :
-    Hdr delta g (groupHeader st g) ∧ (groupHeader st g).endType = g.endType ∧ (groupHeader st g).delta = delta := by
-  have habs : 0 < delta → iabs delta = delta := by intro h; unfold iabs; omega
-  have hD : refDelta delta g = delta := by
-    unfold refDelta
-    split
-    · rename_i hc
-      rcases hB with h | h
-      · exact habs h
-      · have := h hc.1; cases hlo : g.lowest <;> simp [hlo] at this hc
-    · rfl
+private theorem header_ok (delta : Int) (g : Group) (st : OState) (hd : st.delta = delta) :
+    Hdr delta g (groupHeader st g) ∧ (groupHeader st g).delta = delta := by
   subst hd
   by_cases hp : g.endType = .polygon
-  · have hDp : (if g.lowest.isNone = true then iabs st.delta else st.delta) = st.delta := by
-      have := hD; unfold refDelta at this; simpa [hp] using this
-    have hgd : (if g.isReversed = true then -st.delta else st.delta) = refGroupDelta st.delta g := by
-      simp [refGroupDelta, hp, hD]
+  · have hgd : (if g.isReversed = true then -(if g.lowest.isNone = true then iabs st.delta else st.delta)
+        else (if g.lowest.isNone = true then iabs st.delta else st.delta)) = refGroupDelta st.delta g := by
+      simp [refGroupDelta, refDelta, hp]
     unfold groupHeader
-    simp only [hp, if_true, hDp, reduceCtorEq, or_false]
+    simp only [hp, if_true, reduceCtorEq, or_false]
     by_cases hjr : g.joinType = .round
     · simp only [hjr, if_true]
-      exact ⟨⟨hgd, hjr.symm, fun _ => by rw [← hgd]⟩, by trivial, by trivial⟩
+      exact ⟨⟨hgd, hjr.symm, fun _ => by rw [← hgd]⟩, by trivial⟩
     · simp only [hjr, if_false]
-      refine ⟨⟨hgd, rfl, fun h => ?_⟩, by trivial, by trivial⟩
+      refine ⟨⟨hgd, rfl, fun h => ?_⟩, by trivial⟩
       rcases h with h | h
       · exact absurd h hjr
       · rw [hp] at h; cases h
@@ -219,121 +144,81 @@ private theorem header_ok (delta : Int) (g : Group) (st : OState) (hd : st.delta
     simp only [hp, if_false]
     by_cases hr : g.joinType = .round ∨ g.endType = .round
     · simp only [hr, if_true]
-      exact ⟨⟨hgd, rfl, fun _ => by rw [← hgd]⟩, by trivial, by trivial⟩
+      exact ⟨⟨hgd, rfl, fun _ => by rw [← hgd]⟩, by trivial⟩
     · simp only [hr, if_false]
-      exact ⟨⟨hgd, rfl, fun h => absurd h hr⟩, by trivial, by trivial⟩
+      exact ⟨⟨hgd, rfl, fun h => absurd h hr⟩, by trivial⟩
 
 private theorem groupLoop_ok (delta : Int) :
     ∀ (gs : List Group) (st : OState), st.delta = delta →
-      (∀ g ∈ gs, g.endType = .joined → joinedOk g.pathsIn = true) →
-      (0 < delta ∨ ∀ g ∈ gs, g.endType = .polygon → g.lowest.isSome = true) →
-      (groupLoop st gs).2 = gs.map (fun g => g.pathsIn.map (refFrame delta g))
-  | [], _, _, _, _ => by simp [groupLoop]
-  | g :: gs, st, hd, hA, hB => by
-    have hBg : 0 < delta ∨ (g.endType = .polygon → g.lowest.isSome = true) := by
-      rcases hB with h | h
-      · exact Or.inl h
-      · exact Or.inr (h g List.mem_cons_self)
-    obtain ⟨hh, he, hdel⟩ := header_ok delta g st hd hBg
-    have hl := pathLoop_ok delta g g.pathsIn (groupHeader st g) hh he (hA g List.mem_cons_self)
-    have hB' : 0 < delta ∨ ∀ g' ∈ gs, g'.endType = .polygon → g'.lowest.isSome = true := by
-      rcases hB with h | h
-      · exact Or.inl h
-      · exact Or.inr (fun g' hg' => h g' (List.mem_cons_of_mem _ hg'))
+      (groupLoop st gs).2 = gs.map (fun g => g.pathsIn.map (refFrame delta g)) ∧ (groupLoop st gs).1.delta = delta
+  | [], _, hd => by simp [groupLoop, hd]
+  | g :: gs, st, hd => by
+    obtain ⟨hh, hdel⟩ := header_ok delta g st hd
+    have hl := pathLoop_ok delta g g.pathsIn (groupHeader st g) hh
     have ih := groupLoop_ok delta gs (doGroupOffset st g).1 (by unfold doGroupOffset; rw [hl.2, hdel])
-      (fun g' hg' => hA g' (List.mem_cons_of_mem _ hg')) hB'
     simp only [groupLoop, List.map_cons]
-    rw [ih]
+    refine ⟨?_, ih.2⟩
+    rw [ih.1]
     unfold doGroupOffset
     rw [hl.1]
 
-/-- **Frame locality, the part that holds.**  For every state the object was left in, every delta and every list of
-groups such that (A) in Joined groups no 2-vertex path precedes a path with 0 or ≥ 3 vertices, and (B) delta is
-positive or no Polygon group is without points: each path is offset under parameters that depend only on delta, its own
-group's parameters and its own number of vertices — in particular not on the order of paths in the group, on the other
-groups, their order, or on earlier calls. -/
-theorem offset_frame_local_partial (st : OState) (delta : Int) (gs : List Group)
-    (hA : ∀ g ∈ gs, g.endType = .joined → joinedOk g.pathsIn = true)
-    (hB : 0 < delta ∨ ∀ g ∈ gs, g.endType = .polygon → g.lowest.isSome = true) :
-    (executeFrames st delta gs).2 = gs.map (fun g => g.pathsIn.map (refFrame delta g)) :=
-  groupLoop_ok delta gs { st with delta := delta } rfl hA hB
+/-- **Frame locality (full).**  For every state the object was left in by earlier calls, every significant delta and
+every list of groups, each path is offset under parameters that depend only on delta, its own group's parameters and
+its own number of vertices — not on the order of paths in the group, on the other groups, their order, or on history. -/
+theorem offset_frame_local : OffsetFrameLocal := by
+  intro st delta gs hd
+  unfold executeFrames
+  simp only [hd, if_false]
+  exact (groupLoop_ok delta gs { st with delta := delta } rfl).1
 
-/-- `refFrame` is what a fresh object uses when `p` is the only path of a group with `g`'s parameters (no hypothesis
-needed when delta is positive; for a negative delta the group must have a lowest path, as every group with a point has) -/
-theorem refFrame_is_alone (delta : Int) (g : Group) (p : Path)
-    (hB : 0 < delta ∨ (g.endType = .polygon → g.lowest.isSome = true)) :
+/-- `delta_` after a call is the call's delta: no group changes it for a later group or a later call -/
+theorem delta_member_unchanged (st : OState) (delta : Int) (gs : List Group) (hd : delta ≠ 0) :
+    (executeFrames st delta gs).1.delta = delta := by
+  unfold executeFrames
+  simp only [hd, if_false]
+  exact (groupLoop_ok delta gs { st with delta := delta } rfl).2
+
+/-- `refFrame` is what a fresh object uses when `p` is the only path of a group with `g`'s parameters -/
+theorem refFrame_is_alone (delta : Int) (g : Group) (p : Path) (hd : delta ≠ 0) :
     (executeFrames {} delta [{ g with pathsIn := [p] }]).2 = [[refFrame delta g p]] := by
-  have hA : ∀ g' ∈ [{ g with pathsIn := [p] }], g'.endType = .joined → joinedOk g'.pathsIn = true := by
-    intro g' hg' _
-    simp only [List.mem_singleton] at hg'
-    subst hg'
-    simp [joinedOk]
-  have hB' : 0 < delta ∨ ∀ g' ∈ [{ g with pathsIn := [p] }], g'.endType = .polygon → g'.lowest.isSome = true := by
-    rcases hB with h | h
-    · exact Or.inl h
-    · refine Or.inr (fun g' hg' => ?_)
-      simp only [List.mem_singleton] at hg'
-      subst hg'
-      exact h
-  have := offset_frame_local_partial {} delta [{ g with pathsIn := [p] }] hA hB'
-  rw [this]
+  rw [offset_frame_local {} delta _ hd]
   simp only [List.map_cons, List.map_nil]
   rfl
 
-example : (0 : Int) < 10 ∨ ((mkGroup [[⟨0, 0⟩, ⟨5, 0⟩]] .round .joined).endType = .polygon →
-    (mkGroup [[⟨0, 0⟩, ⟨5, 0⟩]] .round .joined).lowest.isSome = true) := Or.inl (by decide)
-
 /-- whenever a Round join or cap can be produced, the arc parameters in force were computed from the `group_delta_` in
-force — for every input, including the ones that trigger the two leaks (no hypothesis on the paths). -/
-theorem round_steps_fresh_in_group (g : Group) :
-    ∀ (ps : Paths) (st : OState), ((g.joinType = .round ∨ g.endType = .round) → st.stepsFor = some st.groupDelta) →
-      (st.endType = g.endType ∨ st.endType = (if g.joinType = .round then .round else .square)) → st.joinType = g.joinType →
-      ∀ f ∈ (pathLoop g st ps).2, f.steps = none ∨ f.steps = some f.groupDelta
-  | [], _, _, _, _ => by simp [pathLoop]
-  | p :: ps, st, hs, he, hj => by
-    intro f hf
-    by_cases hp : p.length = 1
-    · rw [pathLoop_point g st p ps hp] at hf
-      rcases List.mem_cons.mp hf with rfl | hf
-      · by_cases hr : g.joinType = .round
-        · simp [pointFrame, hr, hs (Or.inl hr)]
-        · simp [pointFrame, hr]
-      · exact round_steps_fresh_in_group g ps st hs he hj f hf
-    · rw [pathLoop_path g st p ps hp] at hf
-      have h1 : (pathState g st p).groupDelta = st.groupDelta ∧ (pathState g st p).stepsFor = st.stepsFor ∧
-          (pathState g st p).joinType = st.joinType ∧
-          ((pathState g st p).endType = g.endType ∨ (pathState g st p).endType = (if g.joinType = .round then .round else .square)) := by
-        unfold pathState; split
-        · exact ⟨rfl, rfl, rfl, Or.inr rfl⟩
-        · exact ⟨rfl, rfl, rfl, he⟩
-      generalize pathState g st p = st1 at hf h1
-      rcases List.mem_cons.mp hf with rfl | hf
-      · by_cases hu : usesRound st1.joinType st1.endType = true
-        · have hr : g.joinType = .round ∨ g.endType = .round := by
-            unfold usesRound at hu
-            simp only [Bool.or_eq_true, decide_eq_true_eq] at hu
-            rcases hu with hu | hu
-            · exact Or.inl (by rw [← hj, ← h1.2.2.1]; exact hu)
-            · rcases h1.2.2.2 with h | h
-              · exact Or.inr (by rw [← h]; exact hu)
-              · rw [h] at hu; split at hu
-                · rename_i hjr; exact Or.inl hjr
-                · cases hu
-          simp [pathFrame, hu, h1.1, h1.2.1, hs hr]
-        · simp [pathFrame, hu]
-      · exact round_steps_fresh_in_group g ps st1 (by rw [h1.1, h1.2.1]; exact hs) h1.2.2.2 (by rw [h1.2.2.1]; exact hj) f hf
+force (they are never left over from an earlier group or call) -/
+theorem round_steps_fresh (st : OState) (delta : Int) (gs : List Group) (hd : delta ≠ 0) :
+    ∀ fs ∈ (executeFrames st delta gs).2, ∀ f ∈ fs, f.steps = none ∨ f.steps = some f.groupDelta := by
+  rw [offset_frame_local st delta gs hd]
+  intro fs hfs f hf
+  obtain ⟨g, _, rfl⟩ := List.mem_map.mp hfs
+  obtain ⟨p, _, rfl⟩ := List.mem_map.mp hf
+  unfold refFrame
+  by_cases h0 : p.length = 0
+  · simp [h0]
+  · by_cases h1 : p.length = 1
+    · by_cases hj : g.joinType = .round <;> simp [h1, hj]
+    · by_cases hu : usesRound g.joinType (refEndType g p.length) = true <;> simp [h0, h1, hu]
 
-/-! non-vacuity of the hypotheses of `offset_frame_local_partial`: three groups, mixed kinds, a 2-vertex path that is
-*last* in its Joined group, negative delta -/
+/-- an insignificant delta (`|delta| < 0.5`) enters no frame and writes no member; what it copies is the Polygon groups'
+paths, group by group -/
+theorem insignificant_delta (st : OState) (gs gs' : List Group) :
+    executeFrames st 0 gs = (st, []) ∧ insignificantCopy (gs ++ gs') = insignificantCopy gs ++ insignificantCopy gs' := by
+  refine ⟨rfl, ?_⟩
+  simp [insignificantCopy, List.filter_append, List.flatMap_append]
+
+/-! a run exercising every branch: prior state left by another call, three groups of mixed kinds, 2-vertex paths before
+and after longer ones in a Joined group, an empty path, a point-less Polygon group first, negative delta -/
 def demoGroups : List Group :=
-  [mkGroup [[⟨0, 0⟩, ⟨100, 0⟩, ⟨100, 100⟩]] .round .polygon,
-   mkGroup [[⟨500, 500⟩, ⟨600, 500⟩, ⟨600, 600⟩], [⟨900, 900⟩], [⟨700, 700⟩, ⟨800, 700⟩]] .miter .joined,
+  [mkGroup [[]] .bevel .polygon,
+   mkGroup [[⟨0, 0⟩, ⟨100, 0⟩, ⟨100, 100⟩]] .round .polygon,
+   mkGroup [[⟨700, 700⟩, ⟨800, 700⟩], [⟨500, 500⟩, ⟨600, 500⟩, ⟨600, 600⟩], [], [⟨900, 900⟩], [⟨0, 5⟩, ⟨9, 5⟩]] .miter .joined,
    mkGroup [[⟨0, 1000⟩, ⟨50, 1000⟩, ⟨50, 1000⟩]] .square .butt]
-example : ∀ g ∈ demoGroups, g.endType = .joined → joinedOk g.pathsIn = true := by decide
-example : (0 : Int) < -7 ∨ ∀ g ∈ demoGroups, g.endType = .polygon → g.lowest.isSome = true := Or.inr (by decide)
 example : (executeFrames { delta := 3, groupDelta := 3, endType := .square, stepsFor := some 3 } (-7) demoGroups).2 =
-    [[⟨.polygon, -7, .round, .polygon, some (-7)⟩],
-     [⟨.joined, 7, .miter, .joined, none⟩, ⟨.point, 7, .miter, .polygon, none⟩, ⟨.openPath, 7, .miter, .square, none⟩],
+    [[⟨.skipped, 7, .bevel, .polygon, none⟩],
+     [⟨.polygon, -7, .round, .polygon, some (-7)⟩],
+     [⟨.openPath, 7, .miter, .square, none⟩, ⟨.joined, 7, .miter, .joined, none⟩, ⟨.skipped, 7, .miter, .polygon, none⟩,
+      ⟨.point, 7, .miter, .polygon, none⟩, ⟨.openPath, 7, .miter, .square, none⟩],
      [⟨.openPath, 7, .square, .butt, none⟩]] := by decide
 
 /-! ## RectClip64 -/
